@@ -54,27 +54,31 @@ Variable H : bytes -> bytes -> bytes.
 Variable enc mac : N -> list N -> N -> N -> N -> list N -> option (list N).
 Hypothesis E_len : forall k x, length (E k x) = 16%nat.
 Hypothesis H_len : forall k x, length (H k x) = 32%nat.
-(* C07 supplies these for Model/Security.v's algorithms: a 4-octet MAC, ciphering is an involution, and both are
-   defined for 5G-EA0 / 128-5G-IA2 with 16-octet keys *)
-Hypothesis mac_len4 : forall a k c d m t, mac a k c 1 d m = Some t -> length t = 4%nat.
-Hypothesis enc_inv : forall a k c d p q, enc a k c 1 d p = Some q -> enc a k c 1 d q = Some p.
-Hypothesis protect_defined : forall kenc kint c hdr p, protect enc mac (mk_ctx 0 2 kenc kint) UPLINK c hdr p <> None.
+(* what the composition needs of the NAS algorithms, only for the ones CreateUE selects (5G-EA0, 128-5G-IA2) and only for
+   16-octet keys: a 4-octet MAC, ciphering is an involution, both are defined.  Proofs/RegisterGo.v discharges them for
+   Model/Security.v's algorithms (C07). *)
+Hypothesis mac_len4 : forall k c d m t, mac 2 k c 1 d m = Some t -> length t = 4%nat.
+Hypothesis enc_inv : forall k c d p q, enc 0 k c 1 d p = Some q -> enc 0 k c 1 d q = Some p.
+Hypothesis protect_defined : forall kenc kint c hdr p, length kenc = 16%nat -> length kint = 16%nat ->
+  protect enc mac (mk_ctx 0 2 kenc kint) UPLINK c hdr p <> None.
 
 Lemma protected_accepted ctx c hdr plain pkt mt rest :
-  c < 16777216 -> 1 <= hdr -> hdr <= 4 -> plain = 126 :: 0 :: mt :: rest ->
+  c_ea ctx = 0 -> c_ia ctx = 2 -> c < 16777216 -> 1 <= hdr -> hdr <= 4 -> plain = 126 :: 0 :: mt :: rest ->
   protect enc mac ctx UPLINK c hdr plain = Some pkt ->
   protected_ok enc mac ctx c hdr mt pkt = Some ((c + 1) mod 16777216).
 Proof.
-  intros Hc H1 H4 Hpl Hp. unfold protected_ok.
-  pose proof (receive_protect enc mac ctx (fun _ => True)
-                (fun c d m t => mac_len4 (c_ia ctx) (c_kint ctx) c d m t)
-                (fun c d p q _ => enc_inv (c_ea ctx) (c_kenc ctx) c d p q) UPLINK c hdr plain pkt Hc H1 H4 I Hp) as R.
+  intros Hea Hia Hc H1 H4 Hpl Hp. unfold protected_ok.
+  assert (ML : forall c d m t, mac (c_ia ctx) (c_kint ctx) c 1 d m = Some t -> length t = 4%nat)
+    by (rewrite Hia; intros; eapply mac_len4; eassumption).
+  assert (EI : forall c d p q, True -> enc (c_ea ctx) (c_kenc ctx) c 1 d p = Some q -> enc (c_ea ctx) (c_kenc ctx) c 1 d q = Some p)
+    by (rewrite Hea; intros; eapply enc_inv; eassumption).
+  pose proof (receive_protect enc mac ctx (fun _ => True) ML EI UPLINK c hdr plain pkt Hc H1 H4 I Hp) as R.
   unfold ul_receive. rewrite R.
   (* layout of pkt *)
   unfold protect in Hp.
   destruct (if hdr_ciphered hdr then enc (c_ea ctx) (c_kenc ctx) c BEARER_3GPP UPLINK plain else Some plain) as [body|]; [|discriminate].
   destruct (mac (c_ia ctx) (c_kint ctx) c BEARER_3GPP UPLINK (c mod 256 :: body)) as [m|] eqn:Hm; [|discriminate].
-  pose proof (mac_len4 _ _ _ _ _ _ Hm) as Hl.
+  pose proof (ML _ _ _ _ Hm) as Hl.
   destruct m as [|m1 [|m2 [|m3 [|m4 [|? ?]]]]]; try discriminate Hl.
   injection Hp as <-. cbn [app nth].
   rewrite N.eqb_refl. cbn [negb]. rewrite N.eqb_refl. cbn [negb].
@@ -128,6 +132,8 @@ Proof.
   unfold ue_of_keys.
   set (keys := network_keys_sqn E H k opc rand sqn (to_ascii mcc) (to_ascii mnc) (to_ascii (mcc ++ mnc ++ msin')) 0 2).
   cbn [ue_res_star ue_knasenc ue_knasint].
+  assert (Lke : length (k_nas_enc keys) = 16%nat) by (unfold keys, network_keys_sqn, network_keys, derive, kdf; cbn [k_nas_enc]; rewrite skipn_length, H_len; reflexivity).
+  assert (Lki : length (k_nas_int keys) = 16%nat) by (unfold keys, network_keys_sqn, network_keys, derive, kdf; cbn [k_nas_int]; rewrite skipn_length, H_len; reflexivity).
   (* the two protected messages *)
   set (st0 := mk_ue 0 0 0 2 (k_nas_enc keys) (k_nas_int keys)).
   set (cap := sec_cap 0 2).
@@ -137,7 +143,7 @@ Proof.
   rewrite (nas_encode_is_protect enc mac st0 smc_plain 4 true Wf0). cbn zeta.
   change (ul_count_for (ul st0) true) with 0. change (ctx_of st0) with (mk_ctx 0 2 (k_nas_enc keys) (k_nas_int keys)).
   destruct (protect enc mac (mk_ctx 0 2 (k_nas_enc keys) (k_nas_int keys)) UPLINK 0 4 smc_plain) as [pkt1|] eqn:P1;
-    [| exfalso; exact (protect_defined _ _ _ _ _ P1)].
+    [| exfalso; exact (protect_defined _ _ _ _ _ Lke Lki P1)].
   cbn [ea ia kenc kint]. change (ul_next 0) with 1.
   set (st1 := mk_ue 1 0 (ea st0) (ia st0) (kenc st0) (kint st0)).
   unfold encode_nas_pdu_with_security. change (w8 2) with 2.
@@ -145,7 +151,7 @@ Proof.
   rewrite (nas_encode_is_protect enc mac st1 registration_complete 2 false Wf1). cbn zeta.
   change (ul_count_for (ul st1) false) with 1. change (ctx_of st1) with (mk_ctx 0 2 (k_nas_enc keys) (k_nas_int keys)).
   destruct (protect enc mac (mk_ctx 0 2 (k_nas_enc keys) (k_nas_int keys)) UPLINK 1 2 registration_complete) as [pkt2|] eqn:P2;
-    [| exfalso; exact (protect_defined _ _ _ _ _ P2)].
+    [| exfalso; exact (protect_defined _ _ _ _ _ Lke Lki P2)].
   eexists. split; [reflexivity|]. cbn [o_regreq o_authresp o_smc_complete o_reg_complete o_supi o_final].
   split; [| split; [unfold sub_imsi_ascii, ascii; cbn [sub_mcc sub_mnc sub_msin]; reflexivity | reflexivity]].
   (* the AMF's checks *)
@@ -163,9 +169,9 @@ Proof.
   assert (Hctx : amf_ctx E H s ch = mk_ctx 0 2 (k_nas_enc keys) (k_nas_int keys)).
   { unfold amf_ctx, amf_keys, s, ch, sub_imsi_ascii, ascii. cbn [sub_k sub_opc sub_mcc sub_mnc sub_msin ch_rand ch_sqn]. reflexivity. }
   rewrite Hctx.
-  rewrite (protected_accepted _ 0 4 smc_plain pkt1 SECURITY_MODE_COMPLETE _ ltac:(lia) ltac:(lia) ltac:(lia) eq_refl P1).
+  rewrite (protected_accepted (mk_ctx 0 2 (k_nas_enc keys) (k_nas_int keys)) 0 4 smc_plain pkt1 SECURITY_MODE_COMPLETE _ eq_refl eq_refl ltac:(lia) ltac:(lia) ltac:(lia) eq_refl P1).
   change ((0 + 1) mod 16777216) with 1.
-  rewrite (protected_accepted _ 1 2 registration_complete pkt2 REGISTRATION_COMPLETE _ ltac:(lia) ltac:(lia) ltac:(lia) eq_refl P2).
+  rewrite (protected_accepted (mk_ctx 0 2 (k_nas_enc keys) (k_nas_int keys)) 1 2 registration_complete pkt2 REGISTRATION_COMPLETE _ eq_refl eq_refl ltac:(lia) ltac:(lia) ltac:(lia) eq_refl P2).
   reflexivity.
 Qed.
 End Composition.
